@@ -610,6 +610,9 @@ impl fmt::Display for Exp {
             Exp::Number(value) => value.to_string(),
             Exp::Variable(name) => crate::parser::il::il_exp::written_name(name),
             Exp::Abs(exp) => format!("abs{{ {} }}", exp),
+            // over nothing a conjunction holds and a disjunction does not
+            Exp::And(exps) if exps.is_empty() => "true".to_string(),
+            Exp::Or(exps) if exps.is_empty() => "false".to_string(),
             Exp::And(exps) => exps
                 .iter()
                 .map(logic_operand_to_string)
@@ -828,7 +831,10 @@ impl fmt::Display for Constraint {
         let name = if self.name.is_empty() {
             "".to_string()
         } else {
-            format!("{}: ", self.name)
+            format!(
+                "{}: ",
+                crate::parser::il::il_exp::written_name(&self.name)
+            )
         };
         if self.is_logic_assertion {
             // an asserted constant is written as the Boolean literal it was
